@@ -57,6 +57,12 @@ fn side_components(fp: &Footprint) -> Vec<&'static str> {
 
 /// Judge one case. `unfired` = an operand is missing or a documented guard fails.
 fn judge(name: &str, before: &StateSpec, unfired: bool, why: &str) -> CaseResult {
+    judge_live(name, before, unfired, why, None)
+}
+
+/// `live_pair`: (origin ordinal, destination ordinal) of the top graph whose REAL ids are put on
+/// the INTEGER stack after building (second = origin, top = destination)
+fn judge_live(name: &str, before: &StateSpec, unfired: bool, why: &str, live_pair: Option<(usize, usize)>) -> CaseResult {
     let fp = match footprint::get(name) {
         Some(f) => f,
         None => return judge_untabled(name, before),
@@ -64,9 +70,36 @@ fn judge(name: &str, before: &StateSpec, unfired: bool, why: &str) -> CaseResult
     let mut s = before.clone();
     envelope::clamp_sizes_spec(&mut s, name);
     crate::supervise::journal_instr("C10", name, &s);
-    let after = step_named_on(&s, name)
-        .map_err(|(loc, msg)| Fail::new(format!("C10/{}/panic@{}", name, loc), format!("{} panicked at {}: {} | {}", name, loc, msg, s.brief())))?
-        .canonical();
+    let after = match live_pair {
+        None => step_named_on(&s, name),
+        Some((o, d)) => {
+            let (mut st, idmaps) = s.build();
+            if let Some(ids) = idmaps.first() {
+                if o < ids.len() && d < ids.len() && st.int_stack.size() >= 2 {
+                    *st.int_stack.get_mut(0).unwrap() = ids[d] as i32;
+                    *st.int_stack.get_mut(1).unwrap() = ids[o] as i32;
+                }
+            }
+            // the "before" picture in ordinal ids: ordinals stand for the live ids
+            s.ints[0] = d as i32;
+            s.ints[1] = o as i32;
+            let r = guarded(|| crate::exec::with_machine(|m| m.step_named(&mut st, name)));
+            r.map(|_| {
+                let mut snap = StateSpec::snapshot(&st);
+                // rename the live ids left on the INTEGER stack back to ordinals for the comparison
+                if let Some(ids) = idmaps.first() {
+                    for v in snap.ints.iter_mut() {
+                        if let Some(p) = ids.iter().position(|x| *x as i32 == *v) {
+                            *v = p as i32;
+                        }
+                    }
+                }
+                snap
+            })
+        }
+    }
+    .map_err(|(loc, msg)| Fail::new(format!("C10/{}/panic@{}", name, loc), format!("{} panicked at {}: {} | {}", name, loc, msg, s.brief())))?
+    .canonical();
     let before_c = s.clone();
     let mut h = Fnv::new();
     h.str(name);
@@ -354,6 +387,27 @@ pub fn run(ctx: &Ctx) -> PropReport {
                     for (gs, why) in guard_cases(&name, &s) {
                         cases.push((gs, true, format!("guard: {}", why)));
                     }
+                    // documented guard "the edge exists": live node ids without an edge between them
+                    if name == "GRAPH.EDGE*SETWEIGHT" || name == "GRAPH.EDGE*GETWEIGHT" {
+                        if let Some(g) = s.graphs.first() {
+                            let n = g.nodes.len();
+                            let mut pair = None;
+                            for o in 0..n {
+                                for dd in 0..n {
+                                    if pair.is_none() && !g.edges.iter().any(|e| e.0 == o && e.1 == dd) {
+                                        pair = Some((o, dd));
+                                    }
+                                }
+                            }
+                            if let (Some(pp), true) = (pair, s.ints.len() >= 2) {
+                                rep.evaluations += 1;
+                                match judge_live(&name, &s, true, "guard: no edge between two live nodes", Some(pp)) {
+                                    Ok(o) => rep.record_only(&o),
+                                    Err(f) => rep.fail(ctx, f, json!({"instruction": name, "unfired": true, "why": "guard: no edge between two live nodes", "live_pair": [pp.0, pp.1], "state": s.to_json(), "brief": s.brief()})),
+                                }
+                            }
+                        }
+                    }
                     cases.push((s, false, "all present".into()));
                 }
                 Some(p) => {
@@ -390,5 +444,6 @@ pub fn replay(_ctx: &Ctx, _sub: &str, case: &Value) -> Result<(), Fail> {
     let s = StateSpec::from_json(case.get("state").ok_or_else(bad)?).ok_or_else(bad)?;
     let unfired = case.get("unfired").and_then(|x| x.as_bool()).unwrap_or(false);
     let why = case.get("why").and_then(|x| x.as_str()).unwrap_or("");
-    judge(name, &s, unfired, why).map(|_| ())
+    let live = case.get("live_pair").and_then(|x| x.as_array()).and_then(|a| Some((a.get(0)?.as_u64()? as usize, a.get(1)?.as_u64()? as usize)));
+    judge_live(name, &s, unfired, why, live).map(|_| ())
 }
